@@ -33,7 +33,7 @@ m = {
          'kind_free_text': 'contract-based deductive verification of the real code: Verus (requires/ensures/invariants on functions extracted verbatim each run) and Kani function contracts / loop-free full-domain harnesses compiled inside the real crate; bounded Kani harnesses are labelled bounded; one bounded native enumeration stand-in (C05, EmbeddedWal::scan_records converse direction) is labelled as such and never counted as proved'},
     ],
     'checks': checks,
-    'notes': 'exit 2 (no VIOLATION line) means undecided: anchor lost, unsupported construct, timeout or memory cap. fix: commits in /repo: 19588ca (C05), 564bc2c (C30/C22), 72f8a48 (C35), 7ea9072 (C37; re-lands 5192d72 after revert 377b627), all recorded in known_findings.txt as fixed. ./check selftest runs the mutants and the seeded changes. See DESIGN.md.',
+    'notes': 'exit 2 (no VIOLATION line) means undecided: anchor lost, unsupported construct, timeout or memory cap. fix: commits in /repo: 19588ca (C05), 564bc2c (C30/C22), 72f8a48 (C35), 7ea9072 (C37; re-lands 5192d72 after revert 377b627), 172834d (C22/C39), all recorded in known_findings.txt as fixed. ./check selftest runs the mutants and the seeded changes. See DESIGN.md.',
     'not_applicable': [{'property_id': k, 'reason': v[:600]} for k, v in sorted(na.items()) if k not in registry.PROPS],
 }
 json.dump(m, open(os.path.join(V, 'MANIFEST.json'), 'w'), indent=1)
